@@ -144,7 +144,8 @@ Definition case_verdict (c : case) : Z :=
   (if outcome_eqb (reader_model file cfg) out && list_eqb q_close (progress_model file cfg) prog then 1 else 0) +
   2 * spec_verdict file cfg out + 8 * trigger_mask file cfg.
 
-(* configuration cases: what STLReaderConfiguration.parse made of a program_start_tc / max_row_count value *)
+(* configuration cases: what STLReaderConfiguration.parse made of a dictionary with the keys disable_fill_line_gap,
+   program_start_tc, disable_line_padding, max_row_count (None: key absent) - the configuration or the exception class *)
 Definition start_eqb (a b : start_tc) : bool :=
   match a, b with
   | StNone, StNone | StTCP, StTCP => true
@@ -157,15 +158,16 @@ Definition rows_eqb (a b : max_rows_cfg) : bool :=
   | MrInt n, MrInt m => n =? m
   | _, _ => false
   end.
-Definition cfg_start_case (c : option text * (start_tc + error)) : bool :=
-  match decode_start_tc (fst c), snd c with
-  | inl a, inl b => start_eqb a b
-  | inr a, inr b => error_eqb a b
-  | _, _ => false
-  end.
-Definition cfg_rows_case (c : option cfg_value * (max_rows_cfg + error)) : bool :=
-  match decode_max_row_count (fst c), snd c with
-  | inl a, inl b => rows_eqb a b
+Definition config_eqb (a b : config) : bool :=
+  start_eqb (cf_start a) (cf_start b) && rows_eqb (cf_rows a) (cf_rows b) &&
+  Bool.eqb (cf_disable_fill_line_gap a) (cf_disable_fill_line_gap b) &&
+  Bool.eqb (cf_disable_line_padding a) (cf_disable_line_padding b) &&
+  match cf_font_stack a, cf_font_stack b with None, None => true | _, _ => false end.
+Definition cfg_case := (option cfg_value * option cfg_value * option cfg_value * option cfg_value * (config + error))%type.
+Definition cfg_case_ok (c : cfg_case) : bool :=
+  let '(fill, start, pad, rows, out) := c in
+  match parse_config fill start pad rows, out with
+  | inl a, inl b => config_eqb a b
   | inr a, inr b => error_eqb a b
   | _, _ => false
   end.
